@@ -153,6 +153,14 @@ pub fn tx_alphabet(n: &Node, cfg: &AlphaCfg) -> Vec<(String, Transaction, bool)>
             if cfg.transfers {
                 acc.push((format!("xfer({})", short(&c.0)), tx_t(TxKind::Normal, ins.clone(), with(vec![out_t(v, *d)]), 0, vec![]), true));
             }
+            if cfg.transfers && cfg.stakes && ins.len() == 2 {
+                // the same transfer with the MEL carrier listed first (a locked coin must be refused wherever it stands among the inputs)
+                let mut rev = ins.clone();
+                rev.reverse();
+                let mut outs = with(vec![out_t(v, *d)]);
+                outs.reverse();
+                acc.push((format!("xfer-carrier-first({})", short(&c.0)), tx_t(TxKind::Normal, rev, outs, 0, vec![]), true));
+            }
             if cfg.transfers && m.network == melstructs::NetID::Custom08 {
                 // the same transfer carrying empty signature slots (placeholders): same identity (hash_nosigs), another encoding -
                 // the dense transaction commitment of TIP-908 covers the encoding with signatures
